@@ -9,7 +9,7 @@ os.makedirs(dst, exist_ok=True)
 shutil.copy(os.path.join(src, "change%s.diff" % i), os.path.join(dst, "patch.diff"))
 shutil.copy(os.path.join(src, "demo%s.c" % i), os.path.join(dst, "demo.c"))
 meta_txt = open(os.path.join(src, "meta%s.txt" % i)).read() if os.path.exists(os.path.join(src, "meta%s.txt" % i)) else ""
-confirm = open(os.path.join(src, "confirm%s.txt" % i)).read().splitlines()[-1]
+confirm = [l for l in open(os.path.join(src, "confirm%s.txt" % i)).read().splitlines() if l.startswith("RESULT tests_ok")][-1]
 subprocess.run(["git", "-C", "/repo", "apply", os.path.join(dst, "patch.diff")], check=True)
 try:
     r = subprocess.run(["./check", P, "--tier", "quick"], cwd="/verif", capture_output=True, text=True)
